@@ -642,9 +642,14 @@ func maskFile(file []byte, name string) []byte {
 	if p := ctimeOffset(m); p >= 0 {
 		copy(m[p:p+24], strings.Repeat("C", 24))
 	}
-	tail := name + ".html\n"
-	if bytes.HasSuffix(m, []byte(tail)) {
-		copy(m[len(m)-len(tail):], phName)
+	if C.queryURL {
+		tail, ph := name+".html\n", phName
+		if C.aidURL {
+			tail, ph = aidcOf(name)+"\n", "00000000" // what the placeholder name encodes to
+		}
+		if bytes.HasSuffix(m, []byte(tail)) {
+			copy(m[len(m)-len(tail):], ph)
+		}
 	}
 	return m
 }
@@ -729,7 +734,17 @@ func do(line string) {
 			emit(line, constsLine(), "consts", true)
 			return
 		}
+	case "config":
+		if H.started && len(ws) == 2 && len(ws[1]) == 5 && strings.Trim(ws[1], "01") == "" {
+			b := func(i int) bool { return ws[1][i] == '1' }
+			C = siteCfg{b(0), b(1), b(2), b(3), b(4)}
+			applyCfg(C)
+			emit(line, "ok", "config:"+ws[1], false)
+			return
+		}
 	case "reset":
+		C = defaultCfg
+		applyCfg(C)
 		out, label := doReset(ws)
 		emit(line, out, label, false)
 		return
@@ -816,6 +831,15 @@ func do(line string) {
 	emit(line, "bad-op", "bad-op", false)
 }
 
+// applyCfg sets the package variables the ini file would set (restored to the defaults by every reset).
+func applyCfg(c siteCfg) {
+	ptttype.HAVE_ANONYMOUS = c.haveAnon
+	ptttype.ALLOW_FREE_TN_ANNOUNCE = c.freeTn
+	ptttype.USE_POST_ENTROPY = c.useEntropy
+	ptttype.QUERY_ARTICLE_URL = c.queryURL
+	ptttype.USE_AID_URL = c.aidURL
+}
+
 func b2s(b bool) string {
 	if b {
 		return "1"
@@ -862,12 +886,16 @@ func main() {
 	}
 	defer env.Close()
 	setupFixture()
+	if (siteCfg{ptttype.HAVE_ANONYMOUS, ptttype.ALLOW_FREE_TN_ANNOUNCE, ptttype.USE_POST_ENTROPY, ptttype.QUERY_ARTICLE_URL, ptttype.USE_AID_URL}) != defaultCfg {
+		fmt.Fprintln(os.Stderr, "c09: the compiled configuration defaults differ from the oracle's (see the consts op)")
+	}
 	_ = filepath.Join
 	run.Rule = "histories `reset; post...` through bbs.CreateArticle (ptt.NewPost when a from text is given) on a private BBSHOME: " +
 		"authors {plain user, board moderator, SYSOP} x boards {plain open, moderated+credited, anonymous, hidden}; titles of EVERY length 0..70 in exact-capacity slices x class {none, 4 bytes}, " +
 		"with and without the announcement tag (also truncated tags); bodies of 0..30 lines over {printable, space, TAB, NUL, ESC, '[', digits, ';', ',', movement finals, 'm', 's', 0x80-0xFE}, with/without a trailing empty line; " +
 		"sequences of 2..12 posts to the same and to different boards; time, date, random suffix and Ctime text masked on both sides (format and range judged by the oracle). " +
 		"pure streams: ptt.StripANSIMoveCmd and cmsys.Trim on enumerated short strings (all strings up to length 4 over a 7-symbol alphabet) and random lines. " +
+		"site configuration: all 32 settings of HAVE_ANONYMOUS, ALLOW_FREE_TN_ANNOUNCE, USE_POST_ENTROPY, QUERY_ARTICLE_URL, USE_AID_URL (set in-process, restored by reset), each with posts to the anonymous-flagged, the moderated+credited and a plain board, tagged titles included. " +
 		"sessions: the same user loaded as two or three independent records (`load`) before posting through them (`postas` = ptt.NewPost with the kept, possibly stale record), interleaved with bbs.CreateArticle posts of the same user. " +
 		"write failures: posts whose article file may not grow beyond a limit (RLIMIT_FSIZE): the request must fail and leave index, totals, counters untouched. " +
 		"malformed stream: refused (user, board) pairs, a board id whose name and number disagree, unknown directory, ill-formed op lines. " +
